@@ -43,44 +43,44 @@ var (
 )
 
 func genDuration(t *rapid.T, label string, edgePct int) time.Duration {
-	k := rapid.IntRange(0, 99).Draw(t, label+"Kind")
+	k := unif(t, label+"Kind", 100)
 	switch {
 	case k < edgePct:
-		return rapid.SampledFrom(edgeDurations).Draw(t, label)
+		return pick(t, label, edgeDurations)
 	case k < edgePct+15:
 		return time.Duration(rapid.Int64Range(int64(time.Millisecond), int64(48*time.Hour)).Draw(t, label))
 	default:
-		return rapid.SampledFrom(goodDurations).Draw(t, label)
+		return pick(t, label, goodDurations)
 	}
 }
 
 // rate strings for builder-level cases: sane magnitudes (N <= 10^6), mostly
 // canonical, some near-misses (the three classes of F4 among them)
 func genBuilderRate(t *rapid.T, label string) string {
-	k := rapid.IntRange(0, 99).Draw(t, label+"Kind")
+	k := unif(t, label+"Kind", 100)
 	n := rapid.OneOf(
 		rapid.SampledFrom([]int{0, 1, 2, 5, 10, 30, 100, 1000}),
 		rapid.IntRange(0, 1_000_000),
 	).Draw(t, label+"N")
-	u := rapid.SampledFrom([]string{"s", "s", "1s", "100ms", "10ms", "50ms", "200ms", "500ms", "1m", "2s", "ms", "m", "h", "250ms", "1ms"}).Draw(t, label+"U")
+	u := pick(t, label+"U", []string{"s", "s", "1s", "100ms", "10ms", "50ms", "200ms", "500ms", "1m", "2s", "ms", "m", "h", "250ms", "1ms"})
 	switch {
 	case k < 70:
 		return fmt.Sprintf("%d/%s", n, u)
 	case k < 78:
 		return strconv.Itoa(n)
 	default:
-		return rapid.SampledFrom([]string{
+		return pick(t, label+"Odd", []string{
 			fmt.Sprintf("%d/", n), fmt.Sprintf("%d/.5s", n), fmt.Sprintf("%d/0s", n), fmt.Sprintf("%d/0", n),
 			fmt.Sprintf("-%d/%s", n+1, u), fmt.Sprintf("%d/-1s", n), fmt.Sprintf("%d/1.5s", n), fmt.Sprintf("%d/0.5s", n),
 			fmt.Sprintf("%d /%s", n, u), fmt.Sprintf("%d/1", n), "", "/s", "abc", fmt.Sprintf("%d/0ms", n), fmt.Sprintf("%d/.1s", n),
 			fmt.Sprintf("%d/1h30m", n), fmt.Sprintf("%d//s", n), fmt.Sprintf("%d/1d", n),
-		}).Draw(t, label+"Odd")
+		})
 	}
 }
 
 // jitter within -50 .. 200 (percent), mostly 0 or 0..100; NaN/Inf are outside the sane range
 func genJitter(t *rapid.T) float64 {
-	k := rapid.IntRange(0, 99).Draw(t, "jitterKind")
+	k := unif(t, "jitterKind", 100)
 	switch {
 	case k < 55:
 		return 0
@@ -89,15 +89,15 @@ func genJitter(t *rapid.T) float64 {
 	case k < 95:
 		return rapid.Float64Range(0, 100).Draw(t, "jitterF")
 	default:
-		return rapid.SampledFrom([]float64{-50, -1, 100.5, 150, 200}).Draw(t, "jitterOdd")
+		return pick(t, "jitterOdd", []float64{-50, -1, 100.5, 150, 200})
 	}
 }
 
 func genDistribution(t *rapid.T) string {
-	if rapid.IntRange(0, 9).Draw(t, "distKind") == 9 {
-		return rapid.SampledFrom([]string{"", "Regular", "NONE", "uniform", "none ", "poisson", "random,regular", "0"}).Draw(t, "distOdd")
+	if unif(t, "distKind", 10) == 9 {
+		return pick(t, "distOdd", []string{"", "Regular", "NONE", "uniform", "none ", "poisson", "random,regular", "0"})
 	}
-	return rapid.SampledFrom([]string{"none", "regular", "random"}).Draw(t, "dist")
+	return pick(t, "dist", []string{"none", "regular", "random"})
 }
 
 func fmtFloat(f float64) string { return strconv.FormatFloat(f, 'g', -1, 64) }
@@ -256,7 +256,7 @@ func recordBuilder(section string, c builderCase, res builderResult, extra []str
 }
 
 func runSample(t *rapid.T) bool {
-	return rapid.IntRange(0, vlib.ByTier(63, 15)).Draw(t, "startForReal") == 0
+	return unif(t, "startForReal", vlib.ByTier(64, 16)) == 1
 }
 
 // questionable counts how many of the drawn values lie outside the plainly valid pool.
@@ -322,21 +322,21 @@ const stagedStartLayout = "2006-01-02T15:04:05+07:00" // as in staged_rate.go
 func genBuilderStages(t *rapid.T) string {
 	n := rapid.IntRange(1, 4).Draw(t, "nStages")
 	odd := -1
-	if rapid.IntRange(0, 9).Draw(t, "oddStages") >= 8 {
-		odd = rapid.IntRange(0, n-1).Draw(t, "oddAt")
+	if unif(t, "oddStages", 10) >= 8 {
+		odd = unif(t, "oddAt", n)
 	}
 	var parts []string
 	for i := 0; i < n; i++ {
-		d := rapid.SampledFrom([]string{"0s", "100ms", "300ms", "1s", "10s", "1m", "1h"}).Draw(t, "dur")
+		d := pick(t, "dur", []string{"0s", "100ms", "300ms", "1s", "10s", "1m", "1h"})
 		g := strconv.Itoa(rapid.OneOf(rapid.SampledFrom([]int{0, 1, 10, 30, 100}), rapid.IntRange(0, 100000)).Draw(t, "target"))
 		if i == odd {
-			switch rapid.IntRange(0, 3).Draw(t, "oddKind") {
+			switch unif(t, "oddKind", 4) {
 			case 0:
-				g = rapid.SampledFrom([]string{"-1", "-5", "-100", "-30"}).Draw(t, "negTarget")
+				g = pick(t, "negTarget", []string{"-1", "-5", "-100", "-30"})
 			case 1:
-				d = rapid.SampledFrom([]string{"-1s", "1", "", "1d"}).Draw(t, "oddDur")
+				d = pick(t, "oddDur", []string{"-1s", "1", "", "1d"})
 			case 2:
-				g = rapid.SampledFrom([]string{"", "abc", "1.5"}).Draw(t, "oddTarget")
+				g = pick(t, "oddTarget", []string{"", "abc", "1.5"})
 			default:
 				parts = append(parts, d+g)
 				continue
@@ -344,7 +344,7 @@ func genBuilderStages(t *rapid.T) string {
 		}
 		parts = append(parts, d+":"+g)
 	}
-	return strings.Join(parts, rapid.SampledFrom([]string{",", ",", ", "}).Draw(t, "joiner"))
+	return strings.Join(parts, pick(t, "joiner", []string{",", ",", ", "}))
 }
 
 func stagesArePlain(s string) bool {
@@ -378,7 +378,7 @@ func TestProp_StagedFlags(t *testing.T) {
 		freq := genDuration(rt, "frequency", 12)
 		jitter := genJitter(rt)
 		dist := genDistribution(rt)
-		startStr := rapid.SampledFrom([]string{"", "", "", "2024-03-10T09:00:00+07:00", "2024-03-10T08:59:30+07:00", "garbage", "2024-03-10T09:00:00Z"}).Draw(rt, "startTime")
+		startStr := pick(rt, "startTime", []string{"", "", "", "2024-03-10T09:00:00+07:00", "2024-03-10T08:59:30+07:00", "garbage", "2024-03-10T09:00:00Z"})
 		c := builderCase{Mode: "staged", Seed: rapid.Int64().Draw(rt, "randSeed"), Calls: 5 + rapid.IntRange(0, 25).Draw(rt, "extraCalls"), Run: runSample(rt),
 			Flags: map[string]string{"stages": stg, "iterationFrequency": freq.String(), "jitter": fmtFloat(jitter), "distribution": dist, "startTime": startStr}}
 		var startTime *time.Time
@@ -431,7 +431,7 @@ func TestProp_RampFlags(t *testing.T) {
 		startRate := genBuilderRate(rt, "startRate")
 		endRate := genBuilderRate(rt, "endRate")
 		// most ramps share the unit, as the builder demands
-		if rapid.IntRange(0, 9).Draw(rt, "shareUnit") < 7 {
+		if unif(rt, "shareUnit", 10) < 9 {
 			if i := strings.Index(startRate, "/"); i >= 0 {
 				if j := strings.Index(endRate, "/"); j >= 0 {
 					endRate = endRate[:j] + startRate[i:]
@@ -439,6 +439,9 @@ func TestProp_RampFlags(t *testing.T) {
 			}
 		}
 		rampDur := genDuration(rt, "rampDuration", 15)
+		if ok, _, unit := refCanonical(startRate); ok && rampDur > 0 && rampDur < unit && unif(rt, "longEnough", 10) < 8 {
+			rampDur = unit * time.Duration(1+unif(rt, "rampUnits", 6))
+		}
 		maxDur := genDuration(rt, "maxDuration", 10)
 		jitter := genJitter(rt)
 		dist := genDistribution(rt)
@@ -498,8 +501,25 @@ func gaussianKnown(volume float64, repeat, freq, peak, stddev time.Duration, wei
 	if freq <= 0 {
 		known = append(known, kFreqNotPositive)
 	}
-	if stddev > 0 && !(gaussCovered(repeat, freq, peak, stddev) > 1e-9) {
-		known = append(known, kGaussCovered)
+	if stddev > 0 && freq > 0 {
+		// no probability mass inside the window, or so little of it (or so narrow a
+		// bell) that the request of the tick at the peak does not fit in an int
+		cov := gaussCovered(repeat, freq, peak, stddev)
+		wfac := 1.0
+		if ws, ok := parseWeights(weights); ok && len(ws) > 0 {
+			sum, max := 0.0, 0.0
+			for _, w := range ws {
+				sum += w
+				max = math.Max(max, w)
+			}
+			if sum > 0 {
+				wfac = max / (sum / float64(len(ws)))
+			}
+		}
+		peakRequest := volume * float64(freq) / cov / (float64(stddev) * math.Sqrt(2*math.Pi)) * wfac
+		if !(cov > 0) || !(peakRequest < 4e18) {
+			known = append(known, kGaussCovered)
+		}
 	}
 	if volume < 0 {
 		known = append(known, kGaussNegScale)
@@ -508,7 +528,7 @@ func gaussianKnown(volume float64, repeat, freq, peak, stddev time.Duration, wei
 		sum, neg := 0.0, false
 		for _, w := range ws {
 			sum += w
-			neg = neg || w < 0
+			neg = neg || w < 0 || math.IsNaN(w) || math.IsInf(w, 0)
 		}
 		if neg || sum == 0 {
 			known = append(known, kGaussNegScale)
@@ -532,56 +552,56 @@ type gaussParams struct {
 func genGaussParams(t *rapid.T, allowPeakRate bool) (p gaussParams, q questionable) {
 	windows := []time.Duration{200 * time.Millisecond, time.Second, 10 * time.Second, time.Minute, 10 * time.Minute, time.Hour, 24 * time.Hour, 48 * time.Hour}
 	freqs := []time.Duration{10 * time.Millisecond, 100 * time.Millisecond, 200 * time.Millisecond, time.Second, 10 * time.Second, time.Minute, time.Hour}
-	switch k := rapid.IntRange(0, 99).Draw(t, "repeatKind"); {
+	switch k := unif(t, "repeatKind", 100); {
 	case k < 80:
-		p.Repeat = rapid.SampledFrom(windows).Draw(t, "repeat")
+		p.Repeat = pick(t, "repeat", windows)
 	case k < 90:
 		p.Repeat = genDuration(t, "repeatAny", 0)
 	default:
-		p.Repeat = rapid.SampledFrom(edgeDurations).Draw(t, "repeatEdge")
+		p.Repeat = pick(t, "repeatEdge", edgeDurations)
 	}
-	switch k := rapid.IntRange(0, 99).Draw(t, "freqKind"); {
+	switch k := unif(t, "freqKind", 100); {
 	case k < 75:
-		p.Freq = rapid.SampledFrom(freqs).Draw(t, "freq")
+		p.Freq = pick(t, "freq", freqs)
 	case k < 80:
 		p.Freq = p.Repeat // a single tick per window
 	case k < 90:
 		p.Freq = genDuration(t, "freqAny", 0)
 	default:
-		p.Freq = rapid.SampledFrom(edgeDurations).Draw(t, "freqEdge")
+		p.Freq = pick(t, "freqEdge", edgeDurations)
 	}
-	switch k := rapid.IntRange(0, 99).Draw(t, "peakKind"); {
+	switch k := unif(t, "peakKind", 100); {
 	case k < 70 && p.Repeat > 0:
 		p.Peak = time.Duration(rapid.Int64Range(0, int64(p.Repeat)).Draw(t, "peakInside"))
 	case k < 85:
 		p.Peak = genDuration(t, "peakAny", 10)
 	default:
-		p.Peak = rapid.SampledFrom([]time.Duration{14 * time.Hour, 0, -time.Second, 48 * time.Hour}).Draw(t, "peakFixed")
+		p.Peak = pick(t, "peakFixed", []time.Duration{14 * time.Hour, 0, -time.Second, 48 * time.Hour})
 	}
-	switch k := rapid.IntRange(0, 99).Draw(t, "stddevKind"); {
+	switch k := unif(t, "stddevKind", 100); {
 	case k < 60 && p.Repeat > 8:
 		p.Stddev = time.Duration(rapid.Int64Range(int64(p.Repeat/8), int64(p.Repeat)).Draw(t, "stddevWide"))
 	case k < 85:
 		p.Stddev = genDuration(t, "stddevAny", 8)
 	default:
-		p.Stddev = rapid.SampledFrom([]time.Duration{150 * time.Minute, time.Minute, time.Millisecond, 0, -time.Second}).Draw(t, "stddevFixed")
+		p.Stddev = pick(t, "stddevFixed", []time.Duration{150 * time.Minute, time.Minute, time.Millisecond, 0, -time.Second})
 	}
-	switch k := rapid.IntRange(0, 99).Draw(t, "volumeKind"); {
+	switch k := unif(t, "volumeKind", 100); {
 	case k < 60:
-		p.Volume = float64(rapid.SampledFrom([]int{0, 1, 10, 100, 1000, 86400, 100000, 1000000}).Draw(t, "volume"))
+		p.Volume = float64(pick(t, "volume", []int{0, 1, 10, 100, 1000, 86400, 100000, 1000000}))
 	case k < 92:
 		p.Volume = rapid.Float64Range(0, 1e7).Draw(t, "volumeF")
 	case k < 96:
 		p.Volume = 1e9
 	default:
-		p.Volume = rapid.SampledFrom([]float64{-1, -100, -0.5}).Draw(t, "volumeNeg")
+		p.Volume = pick(t, "volumeNeg", []float64{-1, -100, -0.5})
 	}
-	if rapid.IntRange(0, 9).Draw(t, "weightsKind") < 8 {
-		p.Weights = rapid.SampledFrom(goodWeights).Draw(t, "weights")
+	if unif(t, "weightsKind", 10) < 8 {
+		p.Weights = pick(t, "weights", goodWeights)
 	} else {
-		p.Weights = rapid.SampledFrom(oddWeights).Draw(t, "weightsOdd")
+		p.Weights = pick(t, "weightsOdd", oddWeights)
 	}
-	if allowPeakRate && rapid.IntRange(0, 9).Draw(t, "withPeakRate") == 0 {
+	if allowPeakRate && unif(t, "withPeakRate", 10) == 0 {
 		p.PeakRate = genBuilderRate(t, "peakRate")
 	}
 	q.add(p.Repeat <= 0)
